@@ -153,11 +153,12 @@ theorem oe_fsmUpdateReceived (s : Sess) (hP : Reactive P s.proto) : OutsExt P s 
 theorem oe_fsmNotificationReceived (s : Sess) (e sub : Nat) (hP : Reactive P s.proto) :
     OutsExt P s (s.fsmNotificationReceived e sub) := by
   unfold fsmNotificationReceived
-  have hc : Reactive P ((s.setRetry none).closeConn).proto := hP.of_eq (frm_closeConn 0 (s.setRetry none)).proto
+  have hc : Reactive P ((((s.setRetry none).setHold none).setKeepalive none).closeConn).proto :=
+    hP.of_eq (frm_closeConn 0 (((s.setRetry none).setHold none).setKeepalive none)).proto
   split
   · split
-    · exact ((oe_setRetry s none).trans (oe_closeConn _ hP)).trans (oe_setSt _ _ hc)
-    · exact ((oe_setRetry s none).trans (oe_closeConn _ hP)).trans (oe_setSt _ _ hc)
+    · exact ((((oe_setRetry s none).trans (oe_setHold _ none)).trans (oe_setKeepalive _ none)).trans (oe_closeConn _ hP)).trans (oe_setSt _ _ hc)
+    · exact ((((oe_setRetry s none).trans (oe_setHold _ none)).trans (oe_setKeepalive _ none)).trans (oe_closeConn _ hP)).trans (oe_setSt _ _ hc)
     · exact oe_errorClose s hP
     · exact oe_errorClose s hP
     · exact oe_errorClose s hP
